@@ -221,4 +221,87 @@ theorem biotype_pair_ok (a b : List Char) : okBiotypePair a b (ansP (biotypePair
       rw [show biotypeNames.contains a = true by simpa using ha, show biotypeNames.contains b = true by simpa using hb, h2]
       rfl
 
+/-! ### reverse complement of a text of any length -/
+
+theorem optMapM_all {α β} (f : α → Option β) : ∀ (l : List α), (∀ x ∈ l, (f x).isSome = true) →
+    ∃ r, l.mapM f = some r ∧ r.length = l.length ∧ ∀ i : Nat, r[i]? = (l[i]?).bind f
+  | [], _ => ⟨[], by simp, rfl, by intro i; simp⟩
+  | x :: xs, h => by
+    obtain ⟨r, h1, h2, h3⟩ := optMapM_all f xs (fun y hy => h y (List.mem_cons_of_mem _ hy))
+    have hx := h x List.mem_cons_self
+    obtain ⟨y, hy⟩ := Option.isSome_iff_exists.mp hx
+    refine ⟨y :: r, by simp [List.mapM_cons, hy, h1], by simp [h2], ?_⟩
+    intro i
+    cases i with
+    | zero => simp [hy]
+    | succ i => simpa using h3 i
+
+theorem optMapM_none {α β} (f : α → Option β) : ∀ (l : List α), (∃ x ∈ l, f x = none) → l.mapM f = none
+  | [], h => by simp at h
+  | x :: xs, h => by
+    cases hx : f x with
+    | none => simp [List.mapM_cons, hx]
+    | some y =>
+      have : ∃ z ∈ xs, f z = none := by
+        obtain ⟨z, hz, hz2⟩ := h
+        rcases List.mem_cons.mp hz with rfl | hz
+        · rw [hx] at hz2; cases hz2
+        · exact ⟨z, hz, hz2⟩
+      simp [List.mapM_cons, hx, optMapM_none f xs this]
+
+/-- the alphabets with a complement map are exactly the nucleotide alphabets -/
+theorem maps_isSome (name : List Char) :
+    (Gen.complementMaps.lookup name).isSome = (ntAlphabets.lookup name).isSome := by
+  have hk := complement_keys
+  unfold sameKeys at hk
+  simp only [Bool.and_eq_true] at hk
+  have h1 := lookup_isSome_keys Gen.complementMaps name
+  have h2 := lookup_isSome_keys ntAlphabets name
+  rw [contains_congr _ _ hk.1 hk.2 name, ← h2] at h1
+  exact h1
+
+theorem revcomp_ok (name s : List Char) :
+    okRevComp name s (reverseComplement name s) = true := by
+  unfold okRevComp reverseComplement
+  have hm := maps_isSome name
+  cases hl : Gen.complementMaps.lookup name with
+  | none =>
+    rw [hl] at hm
+    have : (ntAlphabets.lookup name).isNone = true := by
+      cases h : ntAlphabets.lookup name with
+      | none => rfl
+      | some x => rw [h] at hm; simp at hm
+    simp only [this, if_true]; rfl
+  | some m =>
+    rw [hl] at hm
+    have hnn : (ntAlphabets.lookup name).isNone = false := by
+      cases h : ntAlphabets.lookup name with
+      | none => rw [h] at hm; simp at hm
+      | some x => rfl
+    simp only [hnn, Bool.false_eq_true, if_false]
+    have hf : complementChar name = expectComplement name := funext (complement_spec name)
+    rw [hf]
+    by_cases hall : s.all (fun c => (expectComplement name c).isSome) = true
+    · rw [if_pos hall]
+      have hall' : ∀ x ∈ s.reverse, (expectComplement name x).isSome = true := by
+        intro x hx
+        rw [List.all_eq_true] at hall
+        exact hall x (List.mem_reverse.mp hx)
+      obtain ⟨r, h1, h2, h3⟩ := optMapM_all (expectComplement name) s.reverse hall'
+      rw [h1]
+      simp only [Bool.and_eq_true, beq_iff_eq, List.all_eq_true, List.mem_range]
+      refine ⟨by simpa using h2, ?_⟩
+      intro i hi
+      rw [h3 i, List.getElem?_reverse hi]
+    · rw [if_neg hall]
+      have : ∃ x ∈ s.reverse, expectComplement name x = none := by
+        have h2 : s.all (fun c => (expectComplement name c).isSome) = false := by simpa using hall
+        rw [List.all_eq_false] at h2
+        obtain ⟨x, hx, hx2⟩ := h2
+        refine ⟨x, List.mem_reverse.mpr hx, ?_⟩
+        cases h : expectComplement name x with
+        | none => rfl
+        | some y => rw [h] at hx2; simp at hx2
+      rw [optMapM_none _ _ this]; rfl
+
 end BioCantor.Proofs.Tab
